@@ -1061,8 +1061,8 @@ void mmd_info_text(HIO_HANDLE *f, struct module_data *m, int offset)
 			m->comment = (char *) malloc(len + 1);
 			if (m->comment == NULL)
 				return;
-			hio_read(m->comment, 1, len, f);
-			m->comment[len] = 0;
+			len = hio_read(m->comment, 1, len, f);
+			m->comment[len] = 0;	/* a short read leaves no uninitialised tail */
 		}
 	}
 }
